@@ -35,7 +35,8 @@ EdgeRec ==
                same      |-> B(rx' = rx),
                post      |-> SetToSeq({CtxRow(rx', k) : k \in AllSsrcs}),
                probes    |-> SetToSeq({ProbeRow(rx', p) : p \in sent'}),
-               next      |-> SetToSeq({NextRow(rx', s) : s \in Ssrcs}) ] ]
+               next      |-> SetToSeq({NextRow(rx', s) : s \in Ssrcs}),
+               tx        |-> SetToSeq({<<s, sHi'[s], sRtcp'[s]>> : s \in Ssrcs}) ] ]
 
 EmitEdge == PrintT(<<"EDGE", ToJson(EdgeRec)>>)
 NoEmit   == TRUE
